@@ -1,1 +1,113 @@
-(** Props/C07.v — placeholder, to be written. *)
+(** Props/C07.v — runErrors records every step failure exactly once and accurately. *)
+From PV Require Import Engine EngineProofs.
+Open Scope string_scope.
+Notation RG := (list val -> option string -> option string -> st -> R).
+Notation RP := (string -> option (list val) -> option string -> option string -> st -> R).
+
+(** one entry, appended after the existing ones, carrying name, message, step, line, col,
+    the formatted onError payload, the exception object and the swallowed flag; nothing
+    else in context (or the trace, clock, call stack) changes *)
+Theorem C07_entry_fields : forall sp name msg eid sw s custom,
+  on_error_payload sp s = Ok custom ->
+  (sget "runErrors" (ctx s) = None \/ exists l, sget "runErrors" (ctx s) = Some (VList l)) ->
+  exists s', save_error sp name msg eid sw s = (OOk, s') /\
+             run_errors s' = (run_errors s ++ [failure_entry sp name msg eid custom sw])%list /\
+             (forall k, k <> "runErrors" -> sget k (ctx s') = sget k (ctx s)) /\
+             stack s' = stack s /\ trace s' = trace s /\ sleeps s' = sleeps s.
+Proof. exact save_error_appends. Qed.
+Print Assumptions C07_entry_fields.
+
+(** an error escaping the body (after its retries) is recorded exactly once by the step,
+    swallowed or not (the only [save_error] of the step, before the swallow decision) *)
+Theorem C07_recorded_once_by_the_step : forall (rg : RG) (rp : RP) sp k s name msg eid s1 swallow,
+  as_bool s (s_run sp) = Ok true -> as_bool s (s_skip sp) = Ok false ->
+  inner rg rp sp k s = (ORaise (RExn name msg eid), s1) ->
+  as_bool s1 (s_swallow sp) = Ok swallow ->
+  cond rg rp sp k s =
+  andthen (save_error sp name msg eid swallow s1) (fun s2 =>
+    if swallow then (OOk, s2) else (ORaise (RExn name msg eid), s2)).
+Proof. exact cond_error. Qed.
+Print Assumptions C07_recorded_once_by_the_step.
+
+(** an error that propagates outwards through an enclosing call step is marked handled ... *)
+Theorem C07_call_marks_handled : forall (rg : RG) (rp : RP) sp k s c s1,
+  run_body rp sp s = (ORaise (RSig (SCall c)), s1) ->
+  invoke rg rp sp k s =
+  (let '(o, s2) := rg (c_groups c) (c_success c) (c_failure c) s1 in
+   let s3 := reset_counters sp k c s2 in
+   match o with
+   | OOk => (OOk, s3)
+   | ORaise (RSig sg) => (ORaise (RSig sg), s3)
+   | ORaise r => (OHandled r, s3)
+   | OHandled _ => (OUnsup, s3)
+   | OUnsup => (OUnsup, s3)
+   end).
+Proof. exact invoke_call. Qed.
+Print Assumptions C07_call_marks_handled.
+
+(** ... and is NOT recorded a second time by the calling step: the context is untouched and
+    the original error (same identity) is swallowed or re-raised *)
+Theorem C07_not_recorded_twice : forall (rg : RG) (rp : RP) sp k s cause s1 swallow,
+  as_bool s (s_run sp) = Ok true -> as_bool s (s_skip sp) = Ok false ->
+  inner rg rp sp k s = (OHandled cause, s1) ->
+  as_bool s1 (s_swallow sp) = Ok swallow ->
+  cond rg rp sp k s = if swallow then (OOk, s1) else (ORaise cause, s1).
+Proof. exact cond_handled. Qed.
+Print Assumptions C07_not_recorded_twice.
+
+(** a retried call step: the handled marker survives the retry loop's last attempt *)
+Theorem C07_handled_through_retry : forall (rg : RG) (rp : RP) rc sp k m n s cause s1,
+  invoke rg rp sp (mkcnt (k_while k) (k_for k) (Some n))
+         (set_ctx s (sset "retryCounter" (VInt n) (ctx s))) = (OHandled cause, s1) ->
+  m <> 0%Z -> n = m ->
+  retry_iter rg rp rc sp k (Some m) n s = (IRaise (OHandled cause), s1).
+Proof. exact retry_iter_handled_at_max. Qed.
+Print Assumptions C07_handled_through_retry.
+
+(** executions that do not raise add nothing *)
+Theorem C07_ok_adds_nothing : forall (rg : RG) (rp : RP) sp k s s1,
+  as_bool s (s_run sp) = Ok true -> as_bool s (s_skip sp) = Ok false ->
+  inner rg rp sp k s = (OOk, s1) -> cond rg rp sp k s = (OOk, s1).
+Proof. exact cond_ok. Qed.
+Print Assumptions C07_ok_adds_nothing.
+
+(** attempts that a retry later recovers from add nothing: an absorbed attempt hands on
+    exactly the state the attempt left *)
+Theorem C07_recovered_attempt_adds_nothing : forall (rg : RG) (rp : RP) rc sp k max n s name msg eid s1,
+  invoke rg rp sp (mkcnt (k_while k) (k_for k) (Some n))
+         (set_ctx s (sset "retryCounter" (VInt n) (ctx s))) = (ORaise (RExn name msg eid), s1) ->
+  (max = None \/ max = Some 0%Z \/ exists m, max = Some m /\ n <> m) ->
+  opt_truth (r_stopon rc) = false -> opt_truth (r_retryon rc) = false ->
+  retry_iter rg rp rc sp k max n s = (IDone false, s1).
+Proof. exact retry_iter_absorbed. Qed.
+Print Assumptions C07_recovered_attempt_adds_nothing.
+
+(** control-of-flow instructions add nothing *)
+Theorem C07_instruction_adds_nothing : forall (rg : RG) (rp : RP) sp k s sg s1,
+  as_bool s (s_run sp) = Ok true -> as_bool s (s_skip sp) = Ok false ->
+  inner rg rp sp k s = (ORaise (RSig sg), s1) ->
+  cond rg rp sp k s = (ORaise (RSig sg), s1).
+Proof. exact cond_signal. Qed.
+Print Assumptions C07_instruction_adds_nothing.
+
+(** * Non-vacuity: failure two calls deep, both callers swallow / retry *)
+Definition S (nm : string) (b : body) (inn : dict) (sw : val) (rt : option rcfg) (oe : option val) : step :=
+  mkstep nm b (Some inn) None None rt (VBool true) (VBool false) sw oe (Some (3, 5)%Z).
+Definition lib7 : library :=
+  [("main", [("steps", Some [
+       S "pypyr.steps.call" BCall [(VStr "call", VStr "g1")] (VBool true)
+         (Some (mkr (Some (VInt 2)) (VInt 0) None None (VInt 0) None None None)) None;
+       S "vprobe" BProbe [(VStr "ptag", VStr "after")] (VBool false) None None]);
+     ("g1", Some [S "pypyr.steps.call" BCall [(VStr "call", VStr "g2")] (VBool false) None None]);
+     ("g2", Some [S "vfail" BFail [(VStr "vfail", VDict [(VStr "err", VStr "ValueError"); (VStr "msg", VStr "deep")])]
+                    (VBool false) None (Some (VStr "payload {n}"))])])].
+Example C07_nonvacuous :
+  let r := api_run EFUEL lib7 "main" [(VStr "n", VInt 5)] None None None (1 # 4) in
+  fst r = OOk /\ List.length (run_errors (snd r)) = 2%nat /\
+  List.length (trace (snd r)) = 1%nat /\
+  nth_error (run_errors (snd r)) 0 =
+    Some (VDict [(VStr "name", VStr "ValueError"); (VStr "description", VStr "deep");
+                 (VStr "customError", VStr "payload 5"); (VStr "line", VInt 3); (VStr "col", VInt 5);
+                 (VStr "step", VStr "vfail"); (VStr "exception", VExn "ValueError" "deep" 0);
+                 (VStr "swallowed", VBool false)]).
+Proof. vm_compute. repeat split; reflexivity. Qed.
